@@ -52,6 +52,8 @@ pub const FAULT_MODES: &[&str] = &[
     "signal:PIPE:half",
     "signal:ABRT:nothing",
     "badutf8",
+    "badutf8:3",
+    "badutf8:1",
     "close-stdin:1",
     "never-read:1",
     "never-read:2",
